@@ -31,7 +31,7 @@ EFAC = 1e3  # times the running rounding-error bound of the written formula (cov
 FLOOR = 1e-290  # magnitudes below are 0 (underflow is ignored like in the test-suite)
 CLAUSE_V = "value differs from the written formula"
 CLAUSE_D = "derivative differs from the derivative of the written formula"
-CLAUSE_O = "generated code overflows where the written formula is finite (FloatingPointError here, nan by default)"
+CLAUSE_O = "generated code overflows where the written formula is finite (nan/inf or OverflowError instead of the value)"
 FN = "checks.c11:"
 
 SPECIAL_POINTS = [
@@ -126,8 +126,16 @@ class Rec:
         self.viol.append({"sig": sig, "msg": f"`{text}` route={route}: {msg}", "detail": replay, "case": replay, "fn": FN + fn})
 
     def result(self):
+        # one defect fails many routes: report the first two failing routes per clause (value / derivative / overflow /
+        # raises X), so that a (known) family of one clause cannot push a violation of another clause out of the report
+        per_clause, viol = collections.Counter(), []
+        for v in self.viol:
+            clause = v["sig"].rsplit("|", 1)[-1]
+            per_clause[clause] += 1
+            if per_clause[clause] <= 2:
+                viol.append(v)
         return {
-            "v": self.viol[:2],  # the first two failing (route, clause) of the chunk; one defect fails many routes
+            "v": viol,
             "n": self.n,
             "keys": self.keys,
             "nt": bool(self.keys),
@@ -231,9 +239,23 @@ def expr_chunk(case):
                     rec.skipped += 1
                     rec.outs["symbolic derivative over/underflows at a point (skipped)"] += 1
                 elif (isinstance(exc, FloatingPointError) and "overflow" in str(exc)) or isinstance(exc, OverflowError):
-                    # e.g. 1/(1+exp(-a)) is simplified to exp(a)/(exp(a)+1): inf/inf at a = 1000
-                    rec.bad(route, shape, CLAUSE_O, _text, f"{exc} at {[_pt(p) for p in plist][-1:]}; the written formula is "
-                            "finite there (all sub-expressions <= 1e8)", replay(route, plist), "expr_chunk")
+                    # e.g. 1/(1+exp(-a)) is simplified to exp(a)/(exp(a)+1): inf/inf = nan at a = 1000.  The harness runs
+                    # numpy with seterr(all="raise"); what a user gets is the result under numpy's default error state:
+                    # a finite result goes on to the normal comparison (b/(2*cosh(2*a)) -> b/inf = 0 is harmless, only a
+                    # RuntimeWarning), nan/inf or a Python OverflowError is the finding
+                    got = None
+                    if isinstance(exc, FloatingPointError):
+                        try:
+                            with np.errstate(all="ignore"):
+                                got = np.asarray(fn(), dtype=float)
+                        except Exception:  # noqa: BLE001
+                            got = None
+                    if got is not None and np.all(np.isfinite(got)):
+                        rec.outs["intermediate overflow, finite result under numpy's default error state (warning only)"] += 1
+                        return True, got
+                    rec.bad(route, shape, CLAUSE_O, _text, f"{exc} at {[_pt(p) for p in plist][-1:]}, result under numpy's default "
+                            f"error state: {None if got is None else got.tolist()}; the written formula is finite there (all "
+                            "sub-expressions <= 1e8)", replay(route, plist), "expr_chunk")
                 else:
                     rec.bad(route, shape, f"raises {type(exc).__name__}", _text,
                             f"{type(exc).__name__}: {str(exc)[:200]} at {[_pt(p) for p in plist][:2]}",
@@ -1017,6 +1039,19 @@ def main(run):
     deep.sort(key=lambda c: -len(c["exprs"]))
     explore("expr_chunk", cases, "I", "expr[I]", chunksize=1, limit=1200)
     explore("expr_chunk", deep, "I", "expr-deep[I]", chunksize=1, limit=1200)
+
+    # 1b. fixed extra programs (both tiers): the minimal instances of the two known families that the quick grammar
+    # does not reach - sympy.simplify (called by ExpressionBase.__init__) rewrites the derivative of tan(u), tanh(u),
+    # u = b/(cos(a)**2+1), into a wrong closed form, and turns the stable logistic form into one that overflows
+    extra = [
+        {"shape": "tan(·/(·**2+1))", "exprs": ["tan(b/(cos(a)**2+1))"]},
+        {"shape": "tanh(·/(·**2+1))", "exprs": ["tanh(b/(cosh(a)**2+1))"]},
+        {"shape": "·/(exp(·)**2+1)", "exprs": ["b/(exp(-a)**2+1)"]},
+        {"shape": "1/(1+exp(-·))", "exprs": ["1/(1+exp(-a))"]},
+    ]
+    for c in extra:
+        c.update({"seed": seed, "deep": True})
+    explore("expr_chunk", extra, "I", "extra[I]", chunksize=1)
 
     # 2. really compiled: one representative per shape class
     jroutes = ["numba", "numba-array"]
